@@ -1243,9 +1243,16 @@ func GetSlaveStatus(conn PooledConnect) (bool, SlaveStatus, error) {
 
 		switch strings.ToLower(fieldName) {
 		case "seconds_behind_master":
-			switch col.(type) {
+			switch v := col.(type) {
 			case uint64:
-				slaveStatus.SecondsBehindMaster = col.(uint64)
+				slaveStatus.SecondsBehindMaster = v
+			case int64:
+				// 部分 MySQL 版本/分支（以及中间层）把该列声明为有符号 BIGINT，文本协议解析后是 int64
+				if v > 0 {
+					slaveStatus.SecondsBehindMaster = uint64(v)
+				} else {
+					slaveStatus.SecondsBehindMaster = 0
+				}
 			default:
 				slaveStatus.SecondsBehindMaster = 0
 			}
